@@ -1,7 +1,10 @@
 package sim
 
 import (
+	"encoding/json"
 	"fmt"
+	"os"
+	"path/filepath"
 	"sort"
 	"strings"
 
@@ -25,6 +28,9 @@ type SimProp struct {
 }
 
 var Props = map[string]*SimProp{}
+
+// ReplayTrace makes Replay print the boundary log.
+var ReplayTrace bool
 
 func register(p *SimProp) { Props[p.ID] = p }
 
@@ -104,6 +110,15 @@ func RunCase(rt *rapid.T, env *Env, prop *SimProp) {
 		rt.Skip("world")
 	}
 	w.Monitors = prop.Monitors()
+	if env.OutDir != "" {
+		// journal: header line (property, profile, config), then one op per line
+		if jf, err := os.Create(filepath.Join(env.OutDir, fmt.Sprintf("journal-%d.jsonl", env.Shard))); err == nil {
+			hdr, _ := json.Marshal(ReplayFile{Property: prop.ID, Profile: p.Name, Config: cfg})
+			jf.Write(append(hdr, '\n'))
+			w.Journal = jf
+			defer jf.Close()
+		}
+	}
 	w.Settle()
 	var g *Gen
 	if prop.Custom != nil {
@@ -123,6 +138,15 @@ func RunCase(rt *rapid.T, env *Env, prop *SimProp) {
 	res := FinishCase(prop, w, env.Known)
 	script := append([]Op(nil), w.Script...)
 	w.Shutdown()
+	if left := w.Leftover(); left != "" {
+		rf := &ReplayFile{Property: prop.ID, Profile: p.Name, Config: cfg, Script: script, Message: "goroutines left behind after shutdown: " + left, Class: "leftover"}
+		rf.Text = ScriptString(script)
+		if env.OutDir != "" {
+			b, _ := json.MarshalIndent(rf, "", " ")
+			os.WriteFile(filepath.Join(env.OutDir, fmt.Sprintf("leftover-%d-%d.json", env.Shard, env.Stats.Cases)), b, 0o644)
+		}
+		env.Inconclusive("leftover goroutines after shutdown: " + left + " :: " + rf.Text)
+	}
 	env.Stats.Steps += len(script)
 	env.Stats.Modes[p.Name]++
 	text := ScriptString(script)
@@ -160,6 +184,14 @@ func Replay(prop *SimProp, rf *ReplayFile, known *KnownFindings) (CaseResult, er
 		w.Exec(op)
 	}
 	res := FinishCase(prop, w, known)
+	if ReplayTrace {
+		for _, e := range w.Log() {
+			fmt.Printf("%4d s%-3d %-12s c%-2d %s %s %s %s\n", e.T, e.Step, e.Kind, e.Conn, e.Subject, e.Payload, e.Err, e.CID)
+		}
+		for _, le := range w.LogErrors() {
+			fmt.Println("GATEWAY-ERROR-LOG:", le)
+		}
+	}
 	w.Shutdown()
 	return res, nil
 }
@@ -295,4 +327,206 @@ func triggerGetFlush(w *World, v Violation) string {
 		}
 	}
 	return ""
+}
+
+// ---------------------------------------------------------------------------
+// Data properties: C01 (convergence), C02 (applicability), C03 (event order)
+
+// graphConfig draws a resource graph: models and collections referencing each
+// other (shared children, diamonds, cycles, self references, an error child),
+// soft references and data values, plus one query resource.
+func graphConfig(t *rapid.T, p *Profile) WorldConfig {
+	names := []string{"t.a", "t.b", "t.c", "t.d", "t.e"}
+	n := rapid.IntRange(3, len(names)).Draw(t, "nres")
+	names = names[:n]
+	targets := append(append([]string{}, names...), "t.m", "t.q?a=1")
+	var defs []ResDef
+	val := func(label string) Val {
+		k := rapid.IntRange(0, 9).Draw(t, label)
+		switch {
+		case k < 4:
+			return Ref(targets[rapid.IntRange(0, len(targets)-1).Draw(t, label+"t")])
+		case k < 5:
+			return Soft(targets[rapid.IntRange(0, len(targets)-1).Draw(t, label+"t")])
+		case k < 6:
+			return Data(`{"a":[1,2]}`)
+		default:
+			return Prim(fmt.Sprint(rapid.IntRange(0, 3).Draw(t, label+"p")))
+		}
+	}
+	for _, name := range names {
+		if rapid.IntRange(0, 2).Draw(t, "iscoll") == 0 {
+			k := rapid.IntRange(0, 3).Draw(t, "clen")
+			var c []Val
+			for i := 0; i < k; i++ {
+				c = append(c, val("cv"))
+			}
+			defs = append(defs, ResDef{Name: name, Type: "collection", Coll: c})
+		} else {
+			m := map[string]Val{}
+			for _, key := range []string{"a", "b", "r"}[:rapid.IntRange(0, 3).Draw(t, "mlen")] {
+				m[key] = val("mv")
+			}
+			defs = append(defs, ResDef{Name: name, Type: "model", Model: m})
+		}
+	}
+	defs = append(defs, ResDef{Name: "t.m", Type: "model", Missing: true})
+	qm := map[string]string{"a=1": "a=1", "b=1&a=1": "a=1&b=1", "a=1&b=1": "a=1&b=1"}
+	if rapid.IntRange(0, 1).Draw(t, "qcoll") == 0 {
+		defs = append(defs, ResDef{Name: "t.q", Type: "model", Model: map[string]Val{"x": Prim("1")}, QueryMap: qm})
+	} else {
+		defs = append(defs, ResDef{Name: "t.q", Type: "collection", Coll: []Val{Prim("1"), Prim("2")}, QueryMap: qm})
+	}
+	cfg := WorldConfig{Resources: defs, Protocol: p.Protocol}
+	if p.Throttle {
+		cfg.ReferenceThrottle = rapid.IntRange(0, 2).Draw(t, "refthrottle")
+		cfg.ResetThrottle = rapid.IntRange(0, 2).Draw(t, "resetthrottle")
+	}
+	return cfg
+}
+
+var grantMostly = map[string]int{"grant": 30, "getonly": 3, "deny": 1, "denied": 1, "timeout": 1}
+var getMostlyOK = map[string]int{"ok": 30, "notfound": 2, "err": 1, "timeout": 1}
+
+func dataProfile(name string, over map[string]int) *Profile {
+	return &Profile{Name: name, MinOps: 10, MaxOps: 60, MaxConns: 3, Versions: stdVersions, Protocol: true,
+		W: weightsWith(mergeW(map[string]int{"badreq": 0, "burst": 0, "auth": 0, "call": 2, "new": 1, "mutate": 18, "custom": 6, "silent": 3,
+			"sysreset": 3, "qmutate": 4, "qevent": 4, "delete": 1, "reaccess": 2, "token": 1, "httpget": 1, "subscribe": 16, "get": 4, "unsubscribe": 8, "close": 1}, over)),
+		AccessOut: grantMostly, GetOut: getMostlyOK,
+		CallOut:  map[string]int{"resource": 8, "result": 1, "err": 1},
+		QueryOut: map[string]int{"events": 10, "full": 4, "err": 1, "notfound": 1, "timeout": 1},
+		Throttle: true,
+	}
+}
+
+func mergeW(a, b map[string]int) map[string]int {
+	r := map[string]int{}
+	for k, v := range a {
+		r[k] = v
+	}
+	for k, v := range b {
+		r[k] = v
+	}
+	return r
+}
+
+func init() {
+	register(&SimProp{
+		ID:       "C01",
+		Profiles: []*Profile{dataProfile("c01-general", nil), dataProfile("c01-events", map[string]int{"mutate": 30, "answer": 30, "sysreset": 5, "silent": 6})},
+		Config:   graphConfig,
+		Monitors: func() []Monitor { return []Monitor{NewMonC01()} },
+		Trigger:  triggerData,
+	})
+	register(&SimProp{
+		ID:       "C02",
+		Profiles: []*Profile{dataProfile("c02-graphs", map[string]int{"unsubscribe": 14, "mutate": 22, "custom": 2, "get": 6}), dataProfile("c02-general", nil)},
+		Config:   graphConfig,
+		Monitors: func() []Monitor { return []Monitor{NewMonC02()} },
+		Trigger:  triggerData,
+	})
+	register(&SimProp{
+		ID:       "C03",
+		Profiles: []*Profile{dataProfile("c03-customs", map[string]int{"custom": 30, "mutate": 14, "reaccess": 4, "qevent": 2, "sysreset": 4})},
+		Config:   graphConfig,
+		Monitors: func() []Monitor { return []Monitor{NewMonC03()} },
+		Trigger:  triggerData,
+	})
+}
+
+// triggerData attributes violations of the data properties to known-finding histories.
+func triggerData(w *World, v Violation) string {
+	if v.Conn < 0 || v.Conn >= len(w.Clients) {
+		return ""
+	}
+	c := w.Clients[v.Conn]
+	// reset-query-race: a second get for the same (name, query) was answered
+	// while a query request for the name was pending.
+	if v.Class == "diverged" || v.Class == "tail_missing" || v.Class == "order_gap_or_duplicate" {
+		name, _ := splitRID(strings.Replace(v.RID, "{cid}", c.CID, -1))
+		if resetQueryRace(w, name) {
+			return "reset-query-race"
+		}
+	}
+	// unsend: the rid was handed to the client again by the response of a
+	// request that was already outstanding when the client dropped the rid.
+	if v.Class == "diverged" {
+		for _, h := range c.Ref.Handovers {
+			if h.RID != v.RID || !h.Fresh || h.T != v.T {
+				continue
+			}
+			for _, d := range c.Ref.DropLog {
+				if d.RID == v.RID && d.T < h.T && outstandingAcross(c, d.T) {
+					return "unsend-stale-snapshot"
+				}
+			}
+		}
+	}
+	// in-flight retention: the client dropped the resource while a request for
+	// it was in flight on the connection
+	target := v.RID
+	if v.Other != "" {
+		target = v.Other
+	}
+	switch v.Class {
+	case "subscribe_without_data", "get_without_data", "resource_response_without_data", "dangling_reference", "stray_event":
+		for _, d := range c.Ref.DropLog {
+			if d.RID != target || d.T > v.T || d.Cause == "get" {
+				continue
+			}
+			if outstandingAcross(c, d.T) {
+				return "inflight-retention"
+			}
+		}
+	}
+	if v.Class == "stray_event" {
+		// events for a resource the client dropped while a load that references it
+		// was in progress (the gateway keeps it for the loading parent)
+		for _, d := range c.Ref.DropLog {
+			if d.RID == v.RID && d.T < v.T && outstandingAcross(c, d.T) {
+				return "unsend-stale-snapshot"
+			}
+		}
+	}
+	return ""
+}
+
+// outstandingAcross reports whether some request of the connection was sent
+// before log time t and not answered before t.
+func outstandingAcross(c *Client, t int) bool {
+	for _, id := range c.Ref.ReqOrder {
+		q := c.Ref.Reqs[id]
+		if q.SentT < t && (q.Resp == 0 || q.RespT > t) && q.Action != "unsubscribe" && q.Action != "version" {
+			return true
+		}
+	}
+	return false
+}
+
+func resetQueryRace(w *World, name string) bool {
+	type key struct{ q string }
+	gets := map[string]int{}
+	qpend := 0
+	race := false
+	evq := map[int]bool{}
+	for _, e := range w.Log() {
+		switch e.Kind {
+		case "mq_req":
+			if e.Subject == "get."+name {
+				gets[e.Query]++
+			}
+			if strings.HasPrefix(e.Subject, "_EVQ.") && w.qevSubjects[e.Subject] == name {
+				qpend++
+				evq[e.Req] = true
+			}
+		case "mq_complete":
+			if evq[e.Req] {
+				qpend--
+			}
+			if e.Subject == "get."+name && qpend > 0 && gets[e.Query] >= 2 {
+				race = true
+			}
+		}
+	}
+	return race
 }
